@@ -15,5 +15,5 @@ fuzz_target!(|data: &[u8]| {
     }
     actors.push(common::actor(1, common::ops(&mut u, 40, &[POP, POP, POP, POP, POP_IF, POP_IF, PEEK, REMOVE, REMOVE, REMOVE, REMOVE, EMPTY, YIELD])));
     let sched = common::schedule(&mut u);
-    common::execute(Case { fam: "q_list".into(), workers: 1, pool: 1, feat: 0, cfg: vec![0], actors, sched }, run_list);
+    common::execute(Case { fam: "q_list".into(), workers: 1, pool: 1, feat: 0, cfg: vec![0], actors, sched, weak: 0 }, run_list);
 });
